@@ -44,6 +44,11 @@ def scenarios(tier):
                      seg_mru={'A': 4, 'B': 2}, weight=25))
     out.append(_scen('mru-asym-A3|B1', {'A': [s3], 'B': [s1]}, dev_bound=0, tx_init={'A': 3, 'B': 8},
                      seg_mru={'A': 2, 'B': 4}, weight=40))
+    # node IDs outside ASCII (an IRI; two and three octets per character) and a long one (255 / 256 octets)
+    out.append(_scen('node-ids-not-ascii/A1|B1', {'A': [s1], 'B': [s1]}, dev_bound=0, weight=10,
+                     node_ids={'A': 'dtn://n\u0153ud-\u00e9/', 'B': 'dtn://\u8282\u70b9/'}))
+    out.append(_scen('node-ids-long/A1', {'A': [s1], 'B': []}, dev_bound=0, weight=5,
+                     node_ids={'A': 'dtn://' + 'a' * 248 + '/', 'B': 'dtn://' + 'b' * 249 + '/'}))
     out.append(_scen('len0+len1', {'A': [('send', ''), s1], 'B': []}, dev_bound=0, weight=5))
     out.append(_scen('termA|termB-d1', {'A': [term], 'B': [term]}, dev_bound=1, weight=10))
     # adaptive segment sizing (shared with C14): every assignment of fast/slow acknowledgement
